@@ -777,7 +777,7 @@ class CompartmentalSystem(Statement):
             cb._g.edges[u, v]['rate'] = rate_sub
         mapping = {comp: comp.subs(substitutions) for comp in _comps(self._g)}
         nx.relabel_nodes(cb._g, mapping, copy=False)
-        return CompartmentalSystem(cb)
+        return CompartmentalSystem(cb, t=self._t)
 
     def __eq__(self, other):
         if other is self:
